@@ -635,6 +635,13 @@ func c10Child(scPath string) int {
 			} else {
 				rep.event("unfinished:"+truncate(cr.Err, 40), 1)
 			}
+			if strings.HasPrefix(cr.Err, "finisher consistency:") {
+				// the harness plays the finisher; the real one panics on exactly this check
+				// (finisher.go: "seed consistency check failed"), which ends the process
+				w := c10Witness(sc.Seed, i)
+				w["tree"] = seed.DrawTreeWithStatus()
+				rep.violation("crash/finisher-consistency-panic", fmt.Sprintf("input %d (%s, status %d, assets capture off=%v, max-hops=%d) leaves the stages with a tree on which the finisher's consistency check panics: %s", i, c.Kind, c.Status, cfgNow.DisableAssetsCapture, cfgNow.MaxHops, cr.Err), w)
+			}
 		}
 		// direct: NormalizeURL on hostile text with a hostile-ish parent, ProcessBody on failing readers
 		rr := rand.New(rand.NewSource(vc.DeriveSeed(sc.Seed, "C10", "direct", i)))
